@@ -423,6 +423,39 @@ def judge_odd_config_name(rec, rnd, tmp, k, log):
     shutil.rmtree(root, ignore_errors=True)
 
 
+def judge_init_sectionless_rules(rec, rnd, tmp, k, log):
+    """A budget with rules in the legacy CSV AND a merchants.rules the user wrote that holds no [section] (transforms, variables, notes): `tally init` creates
+    what is missing and touches neither of the two."""
+    root = os.path.join(tmp, 'sl%d' % k)
+    cfg = os.path.join(root, 'config')
+    os.makedirs(cfg)
+    os.makedirs(os.path.join(root, 'data'))
+    with open(os.path.join(cfg, 'settings.yaml'), 'w') as f:
+        f.write('year: 2025\ndata_sources:\n  - name: Card\n    file: data/card.csv\n    format: "{date:%Y-%m-%d},{description},{amount}"\n')
+    with open(os.path.join(cfg, 'merchant_categories.csv'), 'w') as f:
+        f.write('Pattern,Merchant,Category,Subcategory\nNETFLIX,Netflix,Subscriptions,Streaming\nCOSTCO,Costco,Food,Grocery\n')
+    with open(os.path.join(cfg, 'merchants.rules'), 'w') as f:
+        f.write(rnd.choice(['# transforms only\nfield.description = regex_replace(field.description, "^APLPAY\\\\s+", "")\n', 'is_large = amount > 500\n', '# note to self: move the rules here one day\n',
+                            '', '\n\n', '# [Not A Section]\nthreshold = 100\n']))
+    with open(os.path.join(root, 'data', 'card.csv'), 'w') as f:
+        f.write('Date,Description,Amount\n2025-01-03,NETFLIX.COM,15.99\n')
+    before = snapshot(root)
+    args = rnd.choice([['init'], ['init', root], ['init', '.']])
+    p, effects = run_cmd(root, root, args, log)
+    after = snapshot(root)
+    rec.case()
+    rec.count('commands_run')
+    rec.count('init_runs')
+    rec.count('init_with_sectionless_rules_file')
+    case = {'kind': 'init-sectionless', 'command': args[:1], 'exit': p.returncode}
+    for pth, h in before.items():
+        if after.get(pth) != h and not pth.endswith('settings.yaml'):
+            key = 'init-moves-csv-without-cause' if pth.endswith('merchant_categories.csv') else 'init-changes-existing-file'
+            rec.violation(key, f'tally init with a merchants.rules that has no sections: {pth} ' + ('disappeared' if pth not in after else 'changed'), case)
+            break
+    shutil.rmtree(root, ignore_errors=True)
+
+
 def run(rec, shard, nshards, t):
     core.import_tally()
     rnd = core.rng_for('C20', shard)
@@ -435,6 +468,8 @@ def run(rec, shard, nshards, t):
             judge(rec, rnd, tmp, 100000 + k, log, focus=True)
         for k in range(max(1, (16 if t == 'quick' else 300) // nshards)):
             judge_odd_config_name(rec, rnd, tmp, k, log)
+        for k in range(max(1, (8 if t == 'quick' else 120) // nshards)):
+            judge_init_sectionless_rules(rec, rnd, tmp, k, log)
         if shard == 0:
             rec.sample({'example_sequence': ['up', 'discover --format json', 'init', 'up --migrate -q'], 'monitors': ['sha256 tree snapshot', 'audit-hook effect log']})
     finally:
@@ -452,6 +487,7 @@ def replay(rec, case):
         for k in range(30):
             judge(rec, rnd, tmp, k, log, focus=k % 3 == 0)
             judge_odd_config_name(rec, rnd, tmp, k, log)
+            judge_init_sectionless_rules(rec, rnd, tmp, k, log)
     finally:
         shutil.rmtree(tmp, ignore_errors=True)
         if os.path.exists(log):
